@@ -4,6 +4,7 @@
 -/
 import Vlsp.Model.Locate
 import Vlsp.Props.C07
+import Vlsp.Lemmas.Utf16Span
 namespace Vlsp
 open Text Slice
 namespace Slice
@@ -97,12 +98,12 @@ namespace Bump
     package starts `byteLen version` bytes before the end of an occurrence of the version in the document — the slice of
     the document from its start offset over the length of the version IS the version, it lies inside the original token,
     and offset and column moved by the same amount -/
-theorem locate_covers (content : Text) (p q : PkgInfo) (hh : p.commitHash = none) (h : locate content p = some q) :
+theorem locate_covers (content : Text) (p q : PkgInfo) (hh : p.commitHash = none) (h : locateBytes content p = some q) :
     slice content q.startOffset (q.startOffset + byteLen p.version) = some p.version ∧
     p.startOffset ≤ q.startOffset ∧ q.startOffset + byteLen p.version ≤ p.endOffset ∧
     q.column - p.column = q.startOffset - p.startOffset ∧
     q.version = p.version ∧ q.name = p.name ∧ q.line = p.line ∧ q.endOffset = p.endOffset := by
-  unfold locate at h
+  unfold locateBytes at h
   simp only [hh, Option.isSome_none, Bool.false_eq_true, if_false] at h
   cases hs : slice content p.startOffset p.endOffset with
   | none => simp [hs] at h
@@ -127,25 +128,53 @@ theorem locate_covers (content : Text) (p q : PkgInfo) (hh : p.commitHash = none
       · show p.column + k - p.column = p.startOffset + k - p.startOffset; omega
 
 /-- a hash-pinned package is left as it is -/
-theorem locate_hash (content : Text) (p : PkgInfo) (hh : p.commitHash.isSome = true) : locate content p = some p := by
-  simp [locate, hh]
+theorem locate_hash (content : Text) (p : PkgInfo) (hh : p.commitHash.isSome = true) : locateBytes content p = some p := by
+  simp [locateBytes, hh]
 
-/-- non-vacuity: a JSR import and an npm alias are pointed at their version; a normalised PEP 440 spec is dropped -/
+/-- the second step changes the column only -/
+theorem toClientColumn_fields (content : Text) (q : PkgInfo) :
+    (toClientColumn content q).startOffset = q.startOffset ∧ (toClientColumn content q).endOffset = q.endOffset ∧
+    (toClientColumn content q).version = q.version ∧ (toClientColumn content q).line = q.line ∧
+    (toClientColumn content q).name = q.name ∧ (toClientColumn content q).commitHash = q.commitHash := by
+  unfold toClientColumn
+  split <;> exact ⟨rfl, rfl, rfl, rfl, rfl, rfl⟩
+
+/-- **the column the cursor test and the edit use is counted in the client's units**: when the document splits at the
+    located package (`lp` = the text of its line before it), the column becomes the UTF-16 length of `lp` -/
+theorem c07_client_column (before lp mid post : Text) (q : PkgInfo)
+    (hcol : q.column = byteLen lp) (hso : q.startOffset = byteLen before + byteLen lp)
+    (heo : q.endOffset = q.startOffset + byteLen mid) (hnl : ∀ c ∈ lp, c ≠ '\n') :
+    (toClientColumn (before ++ lp ++ mid ++ post) q).column = utf16Length lp := by
+  unfold toClientColumn
+  rw [Pos.utf16Span_spec before lp mid post q.column q.startOffset q.endOffset hcol hso heo hnl]
+
+/-- non-vacuity: a JSR import and an npm alias are pointed at their version (after a non-ASCII key the column is counted
+    in UTF-16 units); a normalised PEP 440 spec is dropped -/
 example : (locate "\"jsr:@std/path@^1.0.0\"".toList ⟨"@std/path".toList, "^1.0.0".toList, none, 1, 21, 0, 1, none⟩).map
     (fun q => (q.startOffset, q.column)) = some (15, 15) := by decide
+example : (locate "\"é\": \"npm:r@^1.0.0\"".toList ⟨"r".toList, "^1.0.0".toList, none, 7, 19, 0, 7, none⟩).map
+    (fun q => (q.startOffset, q.column)) = some (13, 12) := by decide
 example : locate "\">= 1.0\"".toList ⟨"r".toList, ">=1.0".toList, none, 1, 7, 0, 1, none⟩ = none := by decide
 
 /-- **every offered edit replaces exactly the current version text**: an action computed for a located package covers,
-    on the package's line, as many bytes as the version has, starting where the document reads the version -/
+    on the package's line, as many units as the version has bytes, starting where the document reads the version -/
 theorem c07_located_edit (content : Text) (p q : PkgInfo) (vs : List Text) (a : Action) (hh : p.commitHash = none)
     (hl : locate content p = some q) (ha : a ∈ bumpActions (some vs) q) :
-    a.line = p.line ∧ a.endCol - a.startCol = byteLen p.version ∧
+    a.line = p.line ∧ a.endCol - a.startCol = byteLen p.version ∧ a.startCol = q.column ∧
     slice content q.startOffset (q.startOffset + (a.endCol - a.startCol)) = some p.version ∧
-    a.startCol - p.column = q.startOffset - p.startOffset := by
-  obtain ⟨hs, _, _, hcol, hv, _, hline, _⟩ := locate_covers content p q hh hl
-  obtain ⟨t, label, keep, _, _, _, _, hal, hsc, hec⟩ := C07.c07_action_sound vs q a ha
-  have hw : a.endCol - a.startCol = byteLen p.version := by rw [hec, hsc, hv]; omega
-  refine ⟨by rw [hal, hline], hw, by rw [hw]; exact hs, by rw [hsc]; exact hcol⟩
+    p.startOffset ≤ q.startOffset ∧ q.startOffset + byteLen p.version ≤ p.endOffset := by
+  unfold locate at hl
+  cases hb : locateBytes content p with
+  | none => simp [hb] at hl
+  | some qb =>
+    simp only [hb, Option.map_some, Option.some.injEq] at hl
+    obtain ⟨hs, h1, h2, _, hv, _, hline, _⟩ := locate_covers content p qb hh hb
+    obtain ⟨fso, _, fv, fl, _, _⟩ := toClientColumn_fields content qb
+    rw [hl] at fso fv fl
+    obtain ⟨t, label, keep, _, _, _, _, hal, hsc, hec⟩ := C07.c07_action_sound vs q a ha
+    have hw : a.endCol - a.startCol = byteLen p.version := by rw [hec, hsc, fv, hv]; omega
+    refine ⟨by rw [hal, fl, hline], hw, hsc, ?_, by rw [fso]; exact h1, by rw [fso]; exact h2⟩
+    rw [hw, fso]; exact hs
 
 end Bump
 end Vlsp
